@@ -120,8 +120,10 @@ type Cluster struct {
 	seq        int
 	Intercept  Intercept
 	OnJournal  func(JournalEntry)
-	AutoCreate int // partitions for auto-created topics; 0: no auto-creation
-	Sasl       *SaslConfig
+	// OffsetFetchOrder "reverse": OffsetFetch answers list topics and partitions in the reverse of the request's order
+	OffsetFetchOrder string
+	AutoCreate       int // partitions for auto-created topics; 0: no auto-creation
+	Sasl             *SaslConfig
 }
 
 type Topic struct {
